@@ -318,6 +318,19 @@ def trajectory_preimages(ctx, g, targets, ks):
                 res.append((tag, k, s_int.to_bytes(nb, "little"), t))
     return res
 
+def successor_word_states(ctx, g):
+    """states whose successor (second successor) under the REAL step has one chosen word equal to 0 / 1 / all-ones, for every
+    word position: [(tag, k, state, target)]"""
+    info = GENS[g]
+    wb, nwords = info["w"] // 8, info["seed"] // (info["w"] // 8)
+    wt = []
+    for j in range(nwords):
+        for tagv, val in (("0", 0), ("1", 1), ("ones", (1 << info["w"]) - 1)):
+            b = bytearray(rand_bytes(ctx.rng, info["seed"]))
+            b[j * wb:(j + 1) * wb] = val.to_bytes(wb, "little")
+            wt.append((f"word{j}={tagv}", bytes(b)))
+    return trajectory_preimages(ctx, g, wt, (1, 2) if ctx.thorough or nwords <= 4 else (1,))
+
 # ------------------------------------------------------------------ C01 / C04: native step
 def native_cases(ctx, gens, nrand_q, nrand_t, steps_basis=3, steps_rand=24):
     cases = []
@@ -342,6 +355,10 @@ def native_cases(ctx, gens, nrand_q, nrand_t, steps_basis=3, steps_rand=24):
             tp = trajectory_preimages(ctx, g, ctx.rng.sample(sp, min(len(sp), ctx.scale(4, 12))), (1, 2, 3, 7))
             for tag, kk, st, t in tp:
                 classes.append((f"reaches:{tag.split('_')[0]}", st))
+            # … systematically: states whose SUCCESSOR (and second successor) has one chosen word equal to 0 / 1 / all-ones,
+            # for every word position (a clamp, a guard or a saturation on a freshly computed state word fires exactly there)
+            for tag, kk, st, t in successor_word_states(ctx, g):
+                classes.append((f"reaches:{tag}", st))
         for cls, seed in classes:
             k = steps_rand if cls in ("random", "ones", "highbit", "counter-special") or cls.startswith("reaches") or cls.startswith("out=") else steps_basis
             c = [f"new 0 {g} seed {seed.hex()}", "ser 0"]
@@ -396,6 +413,7 @@ def tie_C02(ctx):
         seeds.append(("random", rand_bytes(rng, 32)))
     seeds += coincidence_seeds(rng, 32, k=ctx.scale(2, 10))
     seeds += source_constant_seeds("rand_hc", 32, limit=ctx.scale(40, 400))
+    seeds += hc128_expansion_word_seeds(rng, per_pos=ctx.scale(1, 4))
     # seeds on which a small-constant addition of the key/IV expansion carries out of 32 bits (found once by
     # tools/gen_hc128_carry.py): they separate wrapping from saturating / checked arithmetic
     seeds += hc128_edge_seeds(ctx, n_carry=ctx.scale(40, 400))
@@ -950,8 +968,34 @@ def tie_C07(ctx):
             ctx.dist[f"{g}:basis"] += 1
         for _ in range(ctx.scale(30, 400)):
             cases.append([f"new 0 {g} seed {rand_bytes(rng, nb).hex()}", f"{nat} 0", "ser 0", f"{nat} 0", "ser 0"])
-    ctx.absolute_from_state("state transition on all n basis states of every linear engine (+ random states) vs model", cases,
-                            mask=only_state)
+        # states whose successor has a word equal to 0 / 1 / all-ones (every word position): where a clamp or guard on a freshly
+        # computed state word fires — there the real step stops being the linear bijection it is on every basis state
+        for tag, kk, st, t in successor_word_states(ctx, g):
+            cases.append([f"new 0 {g} seed {st.hex()}", f"{nat} 0", "ser 0", f"{nat} 0", "ser 0", f"{nat} 0", "ser 0"])
+            ctx.dist[f"{g}:successor-{tag.split('=')[1]}-word"] += 1
+    h0, m0 = ctx.absolute_from_state("state transition on all n basis states of every linear engine (+ random states) vs model", cases,
+                                     mask=only_state)
+    # where the real step leaves the engine's law: the state it reaches instead has a predecessor under the law (computed from the
+    # real engine's own minimal polynomial) — if the real step maps that one there too, two states merge: a failing input of C07
+    done = 0
+    for c, ho, mo in zip(cases, h0, m0):
+        if done >= 3 or len(ho) < 3 or len(mo) < 3 or ho[2] == mo[2] or ho[2] in ("panic", "unsupported"):
+            continue
+        g = c[0].split()[2]
+        try:
+            tgt = bytes.fromhex(ho[2])
+            pre = trajectory_preimages(ctx, g, [("reached", tgt)], (1,))
+        except Exception:
+            pre = []
+        for tag, kk, p_, t in pre:
+            if p_.hex() == c[0].split()[4]:
+                continue
+            cc = [c[0], c[1], "ser 0", f"new 1 {g} seed {p_.hex()}", c[1].replace(" 0", " 1"), "ser 1"]
+            o = ctx.real("second predecessor of a state reached off the engine's law", [cc])[0]
+            done += 1
+            if o[2] == o[5] and o[2] not in ("panic", "unsupported"):
+                ctx.fail("merge", f"{g}: two different non-zero states step to the same state — the transition is not a bijection, the "
+                         f"non-zero states are not one cycle", cc, expected="different successors", actual=o[2])
     # every call kind is a whole number of native steps: state after `op` == state of a twin after k native steps
     adv, ameta = [], []
     for g in LINEAR:
@@ -2618,6 +2662,39 @@ def core_level(ctx, gens):
         elif o[0] != want:
             ctx.fail("core-generate", f"{g}: block {k} of the core driven directly differs from block {k} handed out by the wrapper", c,
                      expected=want[:64], actual=o[0][:64])
+
+def hc128_expansion_word_seeds(rng, per_pos=1):
+    """HC-128 seeds for which one word of the key/IV expansion W[16..31] is exactly 0 / 1 / all-ones: W[i] = f2(W[i-2]) + W[i-7] +
+    f1(W[i-15]) + W[i-16] + i and for i < 32 the term W[i-16] is a seed word (key, key, iv, iv), so the word is reached by
+    solving for that seed word (fixed-point iteration, verified).  A clamp / guard / saturation on a freshly expanded word fires
+    exactly on such seeds (a random seed has one with probability 2^-24)."""
+    M = 0xffffffff
+    rotr = lambda x, r: ((x >> r) | (x << (32 - r))) & M
+    f1 = lambda x: rotr(x, 7) ^ rotr(x, 18) ^ (x >> 3)
+    f2 = lambda x: rotr(x, 17) ^ rotr(x, 19) ^ (x >> 10)
+    def expand(words, upto):
+        k, iv = words[:4], words[4:]
+        W = k + k + iv + iv
+        for i in range(16, upto + 1):
+            W.append((f2(W[i - 2]) + W[i - 7] + f1(W[i - 15]) + W[i - 16] + i) & M)
+        return W
+    out = []
+    for i in range(16, 32):
+        for tag, target in (("0", 0), ("1", 1), ("ones", M)):
+            for _ in range(per_pos):
+                for attempt in range(80):
+                    words = [rng.getrandbits(32) for _ in range(8)]
+                    j = (i - 16) % 4 + (4 if i - 16 >= 8 else 0)          # the seed word sitting at W[i-16]
+                    ok = False
+                    for it in range(64):
+                        cur = expand(words, i)[i]
+                        if cur == target:
+                            ok = True; break
+                        words[j] = (words[j] + target - cur) & M
+                    if ok:
+                        out.append((f"expansion-word{i}={tag}", b"".join(w.to_bytes(4, "little") for w in words)))
+                        break
+    return out
 
 # ------------------------------------------------------------------ arithmetic-edge corpus shared by C02 / C14 / C18
 def hc128_edge_seeds(ctx, n_carry=40, per_kind=2):
